@@ -21,7 +21,7 @@ import ast
 from . import e2_formula as F
 from .core import AnchorError, Unsupported
 from .sem import unfn, module_funcs, module_consts
-from .c01_ev import ModeEv, Sem01, NONE
+from .c01_ev import ModeEv, Sem01, NONE, DictV, helpers
 
 UTIL = "pyyeti/ode/_utilities.py"
 SOLVEUNC = "pyyeti/ode/solveunc.py"
@@ -218,14 +218,8 @@ def run_su_coef(ctx, fn, regime, m_none, rb_given=True):
     env = {"h": F.sym("h"), "k": par["k"], "b": par["b"], "m": NONE if m_none else F.sym("m"), "rfmodes": NONE,
            "rbmodes": F.const(1 if isrb else 0) if rb_given else NONE}
 
-    def call(node, ev):
-        from .e1_srcmodel import dotted
-        if dotted(node.func) == "SimpleNamespace" and not node.args:
-            return {kw.arg: ev.ev(kw.value) for kw in node.keywords}
-        return NotImplemented
-
     inl = {k: v for k, v in module_funcs(ctx, UTIL).items() if v is not fn}
-    S = Sem01(ctx, fn, ev_cls=ModeEv, env=env, call=call, inline=inl, consts=_consts(ctx, UTIL), nonnull={"h", "m"},
+    S = Sem01(ctx, fn, ev_cls=ModeEv, env=env, inline=inl, consts=_consts(ctx, UTIL), nonnull={"h", "m"},
               cmp=regime_oracle(regime, par), abs_hook=abs_hook)
     ev = S.ev
     if not ev.returns and ev.raised is not None:
@@ -233,13 +227,15 @@ def run_su_coef(ctx, fn, regime, m_none, rb_given=True):
     if not ev.returns:
         raise AnchorError("get_su_coef has no return on the path of the regime " + regime)
     ret = ev.returns[-1][0]
-    if not isinstance(ret, dict):
-        raise Unsupported(f"get_su_coef does not return SimpleNamespace(F=..., ...) for the {regime} regime: {ret!r}"[:300])
+    if not isinstance(ret, DictV):
+        raise Unsupported(f"get_su_coef does not return a namespace SimpleNamespace(F=..., ...) for the {regime} regime: {ret!r}"[:300])
+    if ev.lost:
+        raise Unsupported(f"get_su_coef ({regime}): {ev.lost[0][1]} (line {getattr(ev.lost[0][0], 'lineno', '?')})"[:300])
     out = {}
     for c in COEFS:
-        if c not in ret:
+        if c not in ret.d:
             raise AnchorError(f"coefficient {c} not returned by get_su_coef")
-        out[c] = ret[c]
+        out[c] = ev.plain(ret.d[c])          # the namespace holds the arrays by reference: their content at the return
     return out, par, ev
 
 
@@ -262,11 +258,13 @@ def lam_oracle(regime):
     return cmp
 
 
-def run_complex_coefs(ctx, fn, regime):
-    """SolveUnc._get_complex_su_coefs for one generic eigenvalue; -> ({Fe, Ae, Be}, evaluator)"""
-    inl = {k: v for k, v in module_funcs(ctx, SOLVEUNC).items() if v is not fn}
+def run_complex_coefs(ctx, fn, regime, others=None):
+    """SolveUnc._get_complex_su_coefs for one generic eigenvalue; -> ({Fe, Ae, Be}, evaluator).  `others`: what `np.all(x)` is when x holds for the
+    generic eigenvalue (True: it holds for every other one as well, False: it fails for some other one, None: left open - a test on it is undecided)"""
+    from .c01_ev import OTHERS
+    inl = {k: v for k, v in helpers(ctx, (SOLVEUNC, "SolveUnc"), ("pyyeti/ode/_base_ode_class.py", "_BaseODE")).items() if v is not fn}
     S = Sem01(ctx, fn, ev_cls=ModeEv, env={"lam": F.sym("lam"), "h": F.sym("h")}, inline=inl, consts=_consts(ctx, SOLVEUNC), nonnull={"h", "lam", "pc"},
-              cmp=lam_oracle(regime), abs_hook=None)
+              cmp=lam_oracle(regime), abs_hook=None, truth=None if others is None else {OTHERS: others})
     ev = S.ev
     pcname = [a.arg for a in fn.args.args]
     out = {}
